@@ -9,7 +9,7 @@ from ..grammar import (ModelParseError, ModelParser, extract_parser_table, flatt
                        show)
 from ..oracles import (DENOT, SYMBOL_TO_NODE, NotShared, ast_ops,
                        py_prec_crosscheck, py_tree, slice_meaning)
-from ..summary import NODE, summarize
+from ..summary import NODE, facts_of, summarize
 
 PARSER = "pymbolic.parser"
 IAST = "pymbolic.interop.ast"
@@ -297,6 +297,15 @@ def _check_whole_input(ctx, model):
             e.name in ("pstate.raise_parse_error", "pstate.expected")
             for e in ps.events)
         if raising:
+            continue
+        # the property speaks of strings: what happens to an argument that is
+        # not a string is not its business
+        src_param = ("param", fn.args.args[1].arg)
+        if any(isinstance(v, tuple) and v[0] == "call" and v[1] == "isinstance"
+               and v[2][0] == src_param and v[2][1] == ("global", "str")
+               and not pol for v, pol in (
+                   f for _, pol0, v0 in ps.conds if isinstance(v0, tuple)
+                   for f in facts_of(v0, pol0))):
             continue
         if ps.term != "return":
             ok = False
